@@ -180,20 +180,28 @@ def branch_filter(fa, excuse):
     is (correctly) not excused."""
     memo = {}
 
+    def implies(t, n, positive):
+        """does `t` evaluating to `positive` imply an excused literal?  (a conjunction that holds implies what any part
+        implies; a disjunction that holds only what every part implies)"""
+        if isinstance(t, ast.UnaryOp) and isinstance(t.op, ast.Not):
+            return implies(t.operand, n, not positive)
+        if isinstance(t, ast.BoolOp):
+            conj = (isinstance(t.op, ast.And) and positive) or (isinstance(t.op, ast.Or) and not positive)
+            parts = [implies(v, n, positive) for v in t.values]
+            return any(parts) if conj else all(parts)
+        try:
+            (txt, pol) = fa._literal(t, n, positive)
+        except AnalysisError:
+            return False
+        return bool(excuse(txt, pol))
+
     def edge_ok(s, d, l):
         if l not in ("T", "F"):
             return True
         k = (s, l)
         if k not in memo:
             nd = fa.cfg.node(s)
-            ok = True
-            if nd.kind == "test":
-                try:
-                    atoms = fa._atoms(nd.ast, s, l == "T")
-                except AnalysisError:
-                    atoms = []
-                ok = not any(excuse(t, p) for (t, p) in atoms)
-            memo[k] = ok
+            memo[k] = not (nd.kind == "test" and nd.ast is not None and implies(nd.ast, s, l == "T"))
         return memo[k]
 
     return edge_ok
